@@ -21,6 +21,10 @@ static int pid_listed(int64_t pid, int root) {
   if (n < 1 || n >= H_NODES || !in_subtree(n, root)) return 0;
   return k < ND(n, 5) && ((ND(n, 6) >> (10 * k)) & 1023) == pid;
 }
+#if H_MODE == 3
+/* accounting unit: the SETXATTR events of the three real report functions on node 1 */
+static int ux_n, ux_bad; static int64_t ux_val[4][2]; static int ux_cnt[4][2];
+#endif
 /* monitor state */
 static int pass;                 /* 1 wet, 2 dry */
 static int victim = -1, done, natt[3], att[3][6], att_ok[3][6], att_sig[3][6], att_uuid[3][6];
@@ -34,9 +38,10 @@ static void close_attempt(void) {
   int ok = cur_sig > 0 || cur_kk_ok;
   if (i >= 0 && i < 6) { att_ok[pass][i] = ok; att_sig[pass][i] = cur_sig; }
   if (pass == 1) {
-    VF_CHECK(x_uuid_bad == 0 && x_uuid_ok == 2, "C17: each wet attempt sets trusted./user.oomd_kill_uuid to that attempt's id");
-    VF_CHECK(x_ooms_bad == 0 && x_ooms_cnt == 2, "C17: each wet attempt increments trusted./user.oomd_ooms by exactly 1 (pre-existing value read as integer)");
-    if (!FL(2)) VF_CHECK(x_kill_bad == 0 && x_kill_cnt == 2, "C17: trusted./user.oomd_kill grows by exactly the number of SIGKILLs successfully sent");
+    /* walk variants: the accounting calls are observed at their call boundary (see h_kill.cpp) */
+    VF_CHECK(x_uuid_bad == 0 && x_uuid_ok == 1, "C17: each wet attempt records that attempt's id as the victim's oomd_kill_uuid");
+    VF_CHECK(x_ooms_bad == 0 && x_ooms_cnt == 1, "C17: each wet attempt reports exactly one kill initiation for the victim");
+    if (!FL(2)) VF_CHECK(x_kill_bad == 0 && x_kill_cnt == 1, "C17: each wet attempt reports a kill completion with exactly the number of SIGKILLs successfully sent");
     VF_CHECK(kmsg_in_att == (ok ? 1 : 0), "C17: exactly one kmsg kill record per attempt that signalled a process, none otherwise");
     VF_CHECK(stat_in_att == (ok ? 1 : 0), "C17: oomd.kills rises by exactly 1 per wet attempt that signalled a process, not otherwise");
   }
@@ -76,6 +81,14 @@ void vf_on_event(int kind, int64_t a, int64_t b, int64_t c, int64_t d) {
       if (a == N_ATTEMPT) open_attempt((int)b, (int)c, (int)d);
       else if (a == N_RET) { close_attempt(); ret_[pass] = (int)b; }
       else if (a == N_PAUSE) { pause_ov[pass] = (int)b; pause_until[pass] = c; }
+      else if (a == N_XINIT || a == N_XDONE || a == N_XUUID) {
+        nxattr_ev[pass]++;
+        VF_CHECK(victim >= 1 && b == victim, "C01: xattrs are only written on the chosen victim");
+        int i = natt[pass] - 1;
+        if (a == N_XUUID) { if (b == victim && i >= 0 && i < 6 && c == att_uuid[pass][i]) x_uuid_ok++; else x_uuid_bad++; }
+        else if (a == N_XINIT) { if (b == victim) x_ooms_cnt++; else x_ooms_bad++; }
+        else { if (b == victim && c == cur_sig) x_kill_cnt++; else x_kill_bad++; }
+      }
       return;
     case EV_KILL:
       nkill_ev[pass]++;
@@ -94,6 +107,9 @@ void vf_on_event(int kind, int64_t a, int64_t b, int64_t c, int64_t d) {
       if (b == F_KILL_ && a == victim) cur_kk_ok = 1;
       return;
     case EV_SETXATTR: {
+#if H_MODE == 3
+      { int which = (int)(b / 2), tu = (int)(b % 2); if (a != 1 || which < 1 || which > 3) { ux_bad++; return; } for (int w = 1; w <= 3; w++) for (int t = 0; t < 2; t++) if (w == which && t == tu) { ux_cnt[w][t]++; ux_val[w][t] = c; } ux_n++; return; }
+#endif
       nxattr_ev[pass]++;
       VF_CHECK(victim >= 1 && a == victim, "C01: xattrs are only written on the chosen victim");
       int which = (int)(b / 2), tu = (int)(b % 2);
@@ -143,6 +159,24 @@ int main(void) {
   vf_global_ctors();
   vf_run_harness(harness);
   VF_CHECK(vf_exc == 0, "no exception escapes the kill plugin");
+#if H_MODE == 3
+  {
+    int64_t nk = vf_cfg[CFG_FLAGS][6];
+    VF_CHECK(ux_bad == 0, "C17: accounting xattrs are written on the victim only, under the documented names");
+    for (int tu = 0; tu < 2; tu++) {
+      int64_t o = vf_cfg[CFG_X + 0][tu], k = vf_cfg[CFG_X + 0][2 + tu]; if (o < 0) o = 0; if (k < 0) k = 0;
+      VF_CHECK(ux_cnt[3][tu] == 1 && ux_val[3][tu] == 7, "C17: trusted./user.oomd_kill_uuid is set to the attempt's id");
+      VF_CHECK(ux_cnt[1][tu] == 1 && ux_val[1][tu] == o + 1, "C17: trusted./user.oomd_ooms is incremented by exactly 1, each from its own pre-existing value read as an integer");
+      VF_CHECK(ux_cnt[2][tu] == 1 && ux_val[2][tu] == k + nk, "C17: trusted./user.oomd_kill grows by exactly the number of SIGKILLs successfully sent, each from its own pre-existing value");
+    }
+    if (vf_cfg[CFG_X + 0][0] >= 0 && vf_cfg[CFG_X + 0][1] >= 0 && vf_cfg[CFG_X + 0][0] != vf_cfg[CFG_X + 0][1]) VF_REACH("trusted. and user. counters start from different values");
+    VF_CHECK(0, "WITNESS: oracle reached its end");
+#ifndef __CPROVER__
+    return vf_native_finish();
+#endif
+    return 0;
+  }
+#endif
   int P = H_MODE == 0 ? (FL(1) ? 2 : 1) : 1;   /* pass index of the (first) run */
   /* C03: attempt order = reference DFS, truncated after the first success */
   int tie = 0;
